@@ -17,7 +17,8 @@ LEVEL_TEXT = ('Held on the programs observed: each generated deterministic CS1 p
               'global names with the values of data, and the outcome (normal / exception class at the same student line) are compared. '
               'Each generated function is then called through call() with three argument tuples plus hostile ones (repr longer than '
               '200 characters, kwargs, target names colliding with student names, inf/nan, repeated calls) and compared with calling '
-              'the reference function on deep copies; temporaries must be purged.')
+              'the reference function on deep copies; temporaries must be purged. Inputs: per-execution queues over histories (lists, one '
+              'line by itself, with the real console lent), and through every environment on the default report and on one of its own.')
 LEVEL_NOTE = ('Reference = exec(compile(src, "answer.py", "exec")) in the same interpreter, with a FIFO input() that echoes the prompt '
               'the way pedal does (prompt echo is exempt by the statement). A sample of references is cross-validated against a real '
               '`python answer.py` subprocess. Programs using blocked features are excluded by construction.')
